@@ -129,6 +129,8 @@ structure Call where
   remaining : Option Nat := none
   initiating : Bool
   deadline : Nat := 0
+  /-- order in which the timer was armed (the delay queue serves equal deadlines in that order) -/
+  tseq : Nat := 0
   deriving Repr, DecidableEq, Inhabited
 
 structure PendingReq where
@@ -161,8 +163,11 @@ structure Fresh where
 
 structure HState where
   sessions : List (NA × Session × Nat) := []
-  challenges : List (NA × Challenge × Nat) := []
+  /-- `active_challenges`: (address, challenge, deadline, arming order) -/
+  challenges : List (NA × Challenge × Nat × Nat) := []
   active : List Call := []
+  /-- arming counter of the two delay queues -/
+  tctr : Nat := 0
   pending : List (NA × List PendingReq) := []
   exempt : List (Addr × Nat) := []
   fresh : Fresh := {}
@@ -267,7 +272,8 @@ def callNA (call : Call) : NA := call.contact.na
 
 /-- `ActiveRequests::insert` (a fresh timer). -/
 def activeInsert (c : Cfg) (call : Call) : M Unit := modS fun s =>
-  { s with active := s.active ++ [{ call with deadline := s.now + c.requestTimeout }] }
+  { s with active := s.active ++ [{ call with deadline := s.now + c.requestTimeout, tseq := s.tctr }],
+           tctr := s.tctr + 1 }
 
 /-- `remove_by_nonce`. -/
 def activeRemoveByNonce (nonce : Nat) : M (Option Call) := do
@@ -418,9 +424,12 @@ def replayActiveRequests (c : Cfg) (na : NA) (skipNonce : Option Nat) : M Unit :
     sessPut na sess
     for (oldNonce, p) in packets do
       -- `update_packet`: the nonce mapping is re-inserted (fresh timer), the call keeps its place
-      modS fun s => { s with active := s.active.map (fun call =>
-        if call.pkt.nonce == oldNonce then { call with pkt := p, deadline := s.now + c.requestTimeout }
-        else call) }
+      modS fun s =>
+        let upd : Call → Call := fun call =>
+          if call.pkt.nonce == oldNonce then
+            { call with pkt := p, deadline := s.now + c.requestTimeout, tseq := s.tctr }
+          else call
+        { s with active := s.active.map upd, tctr := s.tctr + 1 }
       send na p
 
 /-- `new_session`. -/
@@ -450,7 +459,7 @@ def sendChallenge (c : Cfg) (na : NA) (nonce : Nat) (known : Option Rec) : M Uni
   addExpected na.addr
   send na (.whoareyou nonce cd enrSeq)
   modS fun s => { s with challenges := s.challenges ++
-    [(na, { cd := cd, remoteRec := known }, s.now + c.requestTimeout)] }
+    [(na, { cd := cd, remoteRec := known }, s.now + c.requestTimeout, s.tctr)], tctr := s.tctr + 1 }
 
 /-- `handle_challenge` (a WHOAREYOU arrived). -/
 def handleChallenge (c : Cfg) (src : Addr) (nonce cd enrSeq : Nat) : M Unit := do
@@ -575,7 +584,7 @@ def handleAuthMessage (c : Cfg) (na : NA) (nonce : Nat) (sig : Sig) (eph : Nat)
   let s ← getS
   match s.challenges.find? (·.1 == na) with
   | none => return ()
-  | some (_, ch, _) =>
+  | some (_, ch, _, _) =>
     setS { s with challenges := s.challenges.filter (·.1 != na) }
     match establishFromChallenge c na.id ch sig eph record with
     | some (some (sess, r)) =>
@@ -586,44 +595,48 @@ def handleAuthMessage (c : Cfg) (na : NA) (nonce : Nat) (sig : Sig) (eph : Nat)
       handleMessage c na nonce ct
     | none =>
       -- invalid signature: the challenge is inserted back (with a fresh timer)
-      modS fun s => { s with challenges := s.challenges ++ [(na, ch, s.now + c.requestTimeout)] }
+      modS fun s => { s with challenges := s.challenges ++ [(na, ch, s.now + c.requestTimeout, s.tctr)],
+                             tctr := s.tctr + 1 }
     | some none =>
       removeExpected na.addr
       failSession c na .invalidRemotePacket true
 
-/-- One due timer, if any: the earliest deadline among active requests and challenges
-(requests before challenges on a tie, insertion order within each). -/
-def nextDue (s : HState) : Option (Sum Call NA) :=
-  let reqs := s.active.filter (·.deadline ≤ s.now)
-  let chs := s.challenges.filter (·.2.2 ≤ s.now)
+/-- The next timer due at or before `target`, if any: the earliest deadline among active requests
+and challenges; equal deadlines are served in arming order (the request queue before the
+challenge queue — the two never tie when every event happens at its own millisecond). -/
+def nextDue (s : HState) (target : Nat) : Option (Nat × Sum Call NA) :=
+  let better (d1 q1 d2 q2 : Nat) : Bool := d1 < d2 || (d1 == d2 && q1 < q2)
+  let reqs := s.active.filter (·.deadline ≤ target)
+  let chs := s.challenges.filter (·.2.2.1 ≤ target)
   let minR := reqs.foldl (fun (m : Option Call) call => match m with
     | none => some call
-    | some b => if call.deadline < b.deadline then some call else some b) none
-  let minC := chs.foldl (fun (m : Option (NA × Challenge × Nat)) e => match m with
+    | some b => if better call.deadline call.tseq b.deadline b.tseq then some call else some b) none
+  let minC := chs.foldl (fun (m : Option (NA × Challenge × Nat × Nat)) e => match m with
     | none => some e
-    | some b => if e.2.2 < b.2.2 then some e else some b) none
+    | some b => if better e.2.2.1 e.2.2.2 b.2.2.1 b.2.2.2 then some e else some b) none
   match minR, minC with
-  | some r, some ch => if ch.2.2 < r.deadline then some (.inr ch.1) else some (.inl r)
-  | some r, none => some (.inl r)
-  | none, some ch => some (.inr ch.1)
+  | some r, some ch => if ch.2.2.1 < r.deadline then some (ch.2.2.1, .inr ch.1) else some (r.deadline, .inl r)
+  | some r, none => some (r.deadline, .inl r)
+  | none, some ch => some (ch.2.2.1, .inr ch.1)
   | none, none => none
 
-/-- Fires all due timers (fuel bounds the loop; each firing removes or re-arms one timer). -/
-def fireTimers (c : Cfg) : Nat → M Unit
+/-- Lets time pass until `target`, firing every timer at its own deadline, in order (fuel bounds
+the loop; each firing removes or re-arms one timer). -/
+def fireTimers (c : Cfg) (target : Nat) : Nat → M Unit
   | 0 => pure ()
   | fuel + 1 => do
     let s ← getS
-    match nextDue s with
+    match nextDue s target with
     | none => pure ()
-    | some (.inl call) =>
-      setS { s with active := s.active.erase call }
+    | some (d, .inl call) =>
+      setS { s with active := s.active.erase call, now := max s.now d }
       handleRequestTimeout c call
-      fireTimers c fuel
-    | some (.inr na) =>
-      setS { s with challenges := s.challenges.filter (·.1 != na) }
+      fireTimers c target fuel
+    | some (d, .inr na) =>
+      setS { s with challenges := s.challenges.filter (·.1 != na), now := max s.now d }
       removeExpected na.addr
       sendPendingRequests c na
-      fireTimers c fuel
+      fireTimers c target fuel
 
 def stepM (c : Cfg) : Ev → M Unit
   | .appRequest contact rid body => do
@@ -645,8 +658,10 @@ def stepM (c : Cfg) : Ev → M Unit
       handleAuthMessage c { id := srcId, addr := src } nonce sig eph record ct
     | .message srcId nonce ct => handleMessage c { id := srcId, addr := src } nonce ct
   | .adv dt => do
-    modS fun s => { s with now := s.now + dt }
-    fireTimers c 10000
+    let s ← getS
+    let target := s.now + dt
+    fireTimers c target 10000
+    modS fun s => { s with now := target }
   | .rtAdv dt => modS fun s => { s with rt := s.rt + dt }
 
 /-- One step of the handler: new state and the outputs of this step. -/
